@@ -112,3 +112,20 @@ Proof.
   destruct held as [|b l]; [cbn in Hl; lia|]. intro Hn. cbn in Hn. inversion Hn as [|? ? Hnin _]; subst.
   apply Hnin. apply in_or_app. right. left. reflexivity.
 Qed.
+
+(* ------------------------------------------------------------------ *)
+Theorem wire_independent_of_log_level (ls : list log_level) c (h : list step) :
+  length ls = length h -> run_at ls c h = run c h.
+Proof.
+  unfold run_at, run, emit_at. revert ls. induction h as [|st h IH]; intros [|l ls] Hl; try discriminate; [reflexivity|].
+  cbn. f_equal. apply IH. cbn in Hl. congruence.
+Qed.
+
+Theorem write_error_is_returned c (st : step) fr rest :
+  frames_of (emit c st) = fr :: rest ->
+  emit_conn true c st = ([], true) /\ emit_conn false c st = (fr :: rest, false).
+Proof. intros H. unfold emit_conn. rewrite H. split; reflexivity. Qed.
+
+Theorem refused_call_writes_nothing c (st : step) fails :
+  frames_of (emit c st) = [] -> emit_conn fails c st = ([], false).
+Proof. intros H. unfold emit_conn. rewrite H. reflexivity. Qed.
